@@ -697,10 +697,80 @@ def _eligible_helper(d: ast.FunctionDef) -> bool:
         if isinstance(n, (ast.FunctionDef, ast.AsyncFunctionDef, ast.ClassDef, ast.Lambda, ast.Yield, ast.YieldFrom, ast.Await,
                           ast.Global, ast.Nonlocal)):
             return False
-    returns = [n for n in ast.walk(d) if isinstance(n, ast.Return)]
-    if len(returns) > 1 or (returns and returns[0] is not body[-1]):
+    import copy as _copy
+    body = _structure_returns(_copy.deepcopy(body))
+    returns = [n for b in body for n in ast.walk(b) if isinstance(n, ast.Return)]
+    tails = set(map(id, _tail_statements(body)))
+    if any(id(rt) not in tails for rt in returns):
+        return False  # a return in the middle of the helper cannot be substituted by plain statements
+    if any(isinstance(n, (ast.For, ast.While, ast.AsyncFor)) and any(isinstance(x, ast.Return) for x in ast.walk(n)) for n in ast.walk(d)):
         return False
     return True
+
+
+def _terminal(block: list) -> bool:
+    """The block always leaves by return / raise."""
+    if not block:
+        return False
+    last = block[-1]
+    if isinstance(last, (ast.Return, ast.Raise)):
+        return True
+    if isinstance(last, ast.If):
+        return _terminal(last.body) and _terminal(last.orelse)
+    if isinstance(last, ast.Try):
+        return (_terminal(last.orelse) if last.orelse else _terminal(last.body)) and all(_terminal(h.body) for h in last.handlers) \
+            and not last.finalbody
+    if isinstance(last, (ast.With, ast.AsyncWith)):
+        return _terminal(last.body)
+    return False
+
+
+def _structure_returns(block: list) -> list:
+    """Behaviour-preserving: when a branch of an if / every handler of a try always leaves, the statements that follow
+    move into the else clause, so that every `return` ends up in tail position."""
+    out = list(block)
+    for i, st in enumerate(out):
+        rest = out[i + 1:]
+        if isinstance(st, ast.If):
+            st.body = _structure_returns(st.body)
+            st.orelse = _structure_returns(st.orelse)
+            if rest and _terminal(st.body) and not st.orelse:
+                st.orelse = _structure_returns(rest)
+                return out[:i + 1]
+            if rest and st.orelse and _terminal(st.orelse) and not _terminal(st.body):
+                st.body = st.body + _structure_returns(rest)
+                return out[:i + 1]
+        elif isinstance(st, ast.Try) and not st.finalbody:
+            st.body = _structure_returns(st.body)
+            for h in st.handlers:
+                h.body = _structure_returns(h.body)
+            st.orelse = _structure_returns(st.orelse)
+            if rest and st.handlers and all(_terminal(h.body) for h in st.handlers) and any(
+                    isinstance(n, ast.Return) for h in st.handlers for n in ast.walk(h)):
+                st.orelse = st.orelse + _structure_returns(rest)
+                return out[:i + 1]
+        elif isinstance(st, (ast.With, ast.AsyncWith)):
+            st.body = _structure_returns(st.body)
+    return out
+
+
+def _tail_statements(block: list) -> list:
+    """Statements in tail position of a block: the last statement, and recursively the last statements of the
+    branches of a last if / try / with."""
+    if not block:
+        return []
+    last = block[-1]
+    out = [last]
+    if isinstance(last, ast.If):
+        out += _tail_statements(last.body) + _tail_statements(last.orelse)
+    elif isinstance(last, ast.Try):
+        # with a finally clause the value of a return is still what it is; the body's tail is a tail only without else
+        out += (_tail_statements(last.orelse) if last.orelse else _tail_statements(last.body))
+        for h in last.handlers:
+            out += _tail_statements(h.body)
+    elif isinstance(last, (ast.With, ast.AsyncWith)):
+        out += _tail_statements(last.body)
+    return out
 
 
 def _inline_unknown_helpers(tree: ast.Module, modname: str, known: set[str], log: Optional[list]) -> None:
@@ -765,6 +835,7 @@ def _inline_unknown_helpers(tree: ast.Module, modname: str, known: set[str], log
                     body = copy.deepcopy(d.body)
                     if body and isinstance(body[0], ast.Expr) and isinstance(body[0].value, ast.Constant) and isinstance(body[0].value.value, str):
                         body = body[1:]
+                    body = _structure_returns(body)
                     stored = {n.id for b in body for n in ast.walk(b) if isinstance(n, ast.Name) and isinstance(n.ctx, (ast.Store, ast.Del))}
                     stored |= {h.name for b in body for h in ast.walk(b) if isinstance(h, ast.ExceptHandler) and h.name}
                     pre: list[ast.stmt] = []
@@ -796,23 +867,48 @@ def _inline_unknown_helpers(tree: ast.Module, modname: str, known: set[str], log
                             return n
 
                     body = [Ren().visit(b) for b in body]
-                    tail: list[ast.stmt] = []
-                    ret = body[-1] if body and isinstance(body[-1], ast.Return) else None
-                    if ret is not None:
-                        body = body[:-1]
-                        val = ret.value if ret.value is not None else ast.Constant(None)
-                    else:
-                        val = ast.Constant(None)
-                    if isinstance(st, ast.Expr):
-                        if not isinstance(val, (ast.Constant, ast.Name)):
-                            tail = [ast.copy_location(ast.Expr(value=val), st)]
-                    elif isinstance(st, ast.Assign):
-                        tail = [ast.copy_location(ast.Assign(targets=st.targets, value=val), st)]
-                    elif isinstance(st, ast.AugAssign):
-                        tail = [ast.copy_location(ast.AugAssign(target=st.target, op=st.op, value=val), st)]
-                    else:
-                        tail = [ast.copy_location(ast.Return(value=val), st)]
-                    stmts[idx:idx + 1] = pre + body + tail
+
+                    def deliver(val: ast.AST, at: ast.AST) -> list:
+                        """What `return val` of the helper means at this call site."""
+                        if isinstance(st, ast.Expr):
+                            return [] if isinstance(val, (ast.Constant, ast.Name)) else [ast.copy_location(ast.Expr(value=val), at)]
+                        if isinstance(st, ast.Assign):
+                            return [ast.copy_location(ast.Assign(targets=copy.deepcopy(st.targets), value=val), at)]
+                        if isinstance(st, ast.AugAssign):
+                            return [ast.copy_location(ast.AugAssign(target=copy.deepcopy(st.target), op=st.op, value=val), at)]
+                        return [ast.copy_location(ast.Return(value=val), at)]
+
+                    def rewrite_tail(block: list) -> list:
+                        """Replace the returns in tail position by their meaning at the call site; a tail that falls off
+                        the end of the helper delivers None."""
+                        if not block:
+                            return deliver(ast.Constant(None), st)
+                        last = block[-1]
+                        if isinstance(last, ast.Return):
+                            return block[:-1] + (deliver(last.value if last.value is not None else ast.Constant(None), last) or [])
+                        if isinstance(last, ast.Raise):
+                            return block
+                        if isinstance(last, ast.If):
+                            last.body = rewrite_tail(last.body) or [ast.copy_location(ast.Pass(), last)]
+                            last.orelse = rewrite_tail(last.orelse) if (last.orelse or not isinstance(st, ast.Expr)) else last.orelse
+                            return block
+                        if isinstance(last, ast.Try):
+                            if last.orelse:
+                                last.orelse = rewrite_tail(last.orelse)
+                            else:
+                                last.body = rewrite_tail(last.body) or [ast.copy_location(ast.Pass(), last)]
+                            for h in last.handlers:
+                                h.body = rewrite_tail(h.body) or [ast.copy_location(ast.Pass(), h)]
+                            return block
+                        if isinstance(last, (ast.With, ast.AsyncWith)):
+                            last.body = rewrite_tail(last.body) or [ast.copy_location(ast.Pass(), last)]
+                            return block
+                        return block + deliver(ast.Constant(None), st)
+
+                    has_return = any(isinstance(n, ast.Return) for b in body for n in ast.walk(b))
+                    if has_return or not isinstance(st, ast.Expr):
+                        body = rewrite_tail(body)
+                    stmts[idx:idx + 1] = pre + body
                     tree.body = [x for x in tree.body if x is not d]
                     if log is not None:
                         log.append((f"{modname}.{name}", "inlined into its only caller"))
